@@ -572,13 +572,18 @@ class PlanJoinTablesQuery:
 
             if table1 is model_table:
                 # model is on the left
-                columns_map[arg1.parts[-1]] = arg2
+                model_column, data_column = arg1, arg2
             elif table2 is model_table:
                 # model is on the right
-                columns_map[arg2.parts[-1]] = arg1
+                model_column, data_column = arg2, arg1
             else:
                 # not found, skip
                 continue
+
+            if model_column.parts[-1] in columns_map:
+                # the column is mapped already: the first mapping must not get lost, this one stays a condition of the join
+                continue
+            columns_map[model_column.parts[-1]] = data_column
 
             # exclude condition
             node.args = [Constant(0), Constant(0)]
